@@ -79,14 +79,27 @@ def run(ctx: Ctx) -> None:
     # ---- R1 -------------------------------------------------------------------------------
     n1 = 0
     for f in prog.funcs.values():
-        if f.parent is None:
-            continue
         rec_calls = [n for n in f.own_nodes() if isinstance(n, ast.Call) and isinstance(n.func, ast.Name) and n.func.id == f.name]
-        if not rec_calls:
+        loops = [n for n in f.own_nodes() if isinstance(n, (ast.While, ast.For))]
+        if not (rec_calls and f.parent is not None) and not loops:
             continue
-        adds = [n for n in f.own_nodes() if isinstance(n, ast.Call) and isinstance(n.func, ast.Attribute) and n.func.attr == "add" and isinstance(n.func.value, ast.Name)
-                and not prog.is_local(f, n.func.value.id) or (isinstance(n, ast.Call) and isinstance(n.func, ast.Attribute) and n.func.attr == "add"
-                and isinstance(n.func.value, ast.Name) and n.func.value.id not in f.params and n.func.value.id not in _assigned(f))]
+        all_adds = [n for n in f.own_nodes() if isinstance(n, ast.Call) and isinstance(n.func, ast.Attribute) and n.func.attr == "add" and isinstance(n.func.value, ast.Name)]
+        adds = []
+        loop_of: Dict[int, ast.AST] = {}
+        if rec_calls and f.parent is not None:
+            # a recursive closure: the visited set belongs to the enclosing function
+            adds = [n for n in all_adds if not prog.is_local(f, n.func.value.id) or (n.func.value.id not in f.params and n.func.value.id not in _assigned(f))]
+        else:
+            # a work-list loop: the visited set is created before the loop, the add runs once per node taken from the list
+            for lp in loops:
+                if not any(isinstance(x, ast.Call) and isinstance(x.func, ast.Attribute) and x.func.attr in ("pop", "popleft") for x in ast.walk(lp)):
+                    continue
+                inside = {id(x) for x in ast.walk(lp)}
+                assigned_in = {t.id for x in ast.walk(lp) if isinstance(x, ast.Name) and isinstance(x.ctx, ast.Store) for t in [x]}
+                for n in all_adds:
+                    if id(n) in inside and n.func.value.id not in assigned_in and id(n) not in loop_of:
+                        adds.append(n)
+                        loop_of[id(n)] = lp
         for a in adds:
             vset = a.func.value.id  # type: ignore
             tests = [n for n in f.own_nodes() if isinstance(n, ast.Compare) and isinstance(n.ops[0], (ast.In, ast.NotIn)) and isinstance(n.comparators[0], ast.Name)
@@ -97,16 +110,19 @@ def run(ctx: Ctx) -> None:
             key = a.args[0] if a.args else None
             tkey = tests[0].left
             own = set(f.params) | _assigned(f)
+            if id(a) in loop_of:
+                own = {x.id for x in ast.walk(loop_of[id(a)]) if isinstance(x, ast.Name) and isinstance(x.ctx, ast.Store)}
             desc = f"visited-set key `{unparse(key, 40)}` of {f.name} depends on the node being visited"
             dep_add = bool(names_in(key) & own) if key is not None else False
             dep_test = bool(names_in(tkey) & own)
             proj = None
             for k_ in (key, tkey):
                 for x_ in ast.walk(k_) if k_ is not None else []:
-                    if isinstance(x_, ast.Attribute) and isinstance(x_.value, ast.Name) and x_.value.id in f.params:
+                    if isinstance(x_, ast.Attribute) and isinstance(x_.value, ast.Name) and x_.value.id in (own if id(a) in loop_of else f.params):
                         proj = x_
             from ..flow import returns_of
-            collector = f.parent is not None and bool(returns_of(f.parent))
+            collector = (f.parent is not None and bool(returns_of(f.parent))) or (id(a) in loop_of and (bool(returns_of(f)) or any(
+                isinstance(x, (ast.Yield, ast.YieldFrom)) for x in f.own_nodes())))
             if dep_add and dep_test and proj is not None and not collector:
                 rep.info("C09.R1", f.qname, f"walker {f.name} collapses nodes by `{unparse(proj)}` (its enclosing function returns nothing: display only, not judged)", f.loc(a))
             elif dep_add and dep_test and proj is not None:
